@@ -3,6 +3,7 @@ package main
 import (
 	"fmt"
 	"go/ast"
+	"go/token"
 	"go/types"
 	"sort"
 	"strings"
@@ -342,7 +343,7 @@ func (c *CFG) CondTerm(b *cfg.Block) *Term {
 	switch par := c.p.parents[last].(type) {
 	case *ast.IfStmt:
 		if par.Cond == last {
-			return c.p.Term(e)
+			return c.condWithInit(par, c.p.Term(e))
 		}
 	case *ast.ForStmt:
 		if par.Cond == last {
@@ -592,4 +593,57 @@ func (c *CFG) DominatingConds(pt Point) []*Term {
 		}
 	}
 	return out
+}
+
+// CondAt is a dominating branch condition together with the block that branches.
+type CondAt struct {
+	T *Term
+	B *cfg.Block
+}
+
+// DominatingCondsAt is DominatingConds with the branching blocks.
+func (c *CFG) DominatingCondsAt(pt Point) []CondAt {
+	var out []CondAt
+	for _, b := range c.live {
+		if len(b.Succs) != 2 || b.Succs[0] == b.Succs[1] {
+			continue
+		}
+		ct := c.CondTerm(b)
+		if ct == nil {
+			continue
+		}
+		for i, s := range b.Succs {
+			if !s.Live || len(c.preds[s]) != 1 || !c.BlockDominates(s, pt.B) {
+				continue
+			}
+			if i == 0 {
+				out = append(out, CondAt{ct, b})
+			} else {
+				out = append(out, CondAt{Negate(ct), b})
+			}
+		}
+	}
+	return out
+}
+
+// condWithInit: `if x := e; <cond over x>`: a boolean x defined by the if's own
+// init statement is replaced by e — nothing executes between the two, so the
+// condition is exactly the expression it abbreviates.
+func (c *CFG) condWithInit(is *ast.IfStmt, t *Term) *Term {
+	as, ok := is.Init.(*ast.AssignStmt)
+	if !ok || as.Tok != token.DEFINE || len(as.Lhs) != 1 || len(as.Rhs) != 1 {
+		return t
+	}
+	id, ok := as.Lhs[0].(*ast.Ident)
+	if !ok {
+		return t
+	}
+	v, _ := c.p.Info.Defs[id].(*types.Var)
+	if v == nil {
+		return t
+	}
+	if b, isB := v.Type().Underlying().(*types.Basic); !isB || b.Kind() != types.Bool {
+		return t
+	}
+	return normTerm(t.Subst(map[types.Object]*Term{v: c.p.Term(as.Rhs[0])}))
 }
